@@ -1,7 +1,7 @@
 (* Property C01 - only statements, each closed by [exact].  (partial: see manifest.d/C01.json) *)
 From Coq Require Import ZArith List Bool String.
 Import ListNotations.
-Require Import UV.C01.Model UV.Gen.Stubs UV.C01.MachineProofs UV.C01.StubTheorems UV.C01.ArchCtxProofs UV.C01.Proofs UV.C01.ShadowProofs UV.C01.ShadowRecover.
+Require Import UV.C01.Model UV.Gen.Stubs UV.C01.MachineProofs UV.C01.StubTheorems UV.C01.ArchCtxProofs UV.C01.Proofs UV.C01.ShadowProofs UV.C01.ShadowRecover UV.C01.LifeProofs.
 Local Open Scope Z_scope.
 
 (* ---- (i) the assembly stubs, as generated from arch/x86_64/*.S of the current tree ----
@@ -215,6 +215,52 @@ Theorem C01_threads_return_to_real_callers : forall (trees : nat -> call) (sched
   rs (fst (run_sched (fun _ => st0) sched) t) = [].
 Proof. exact threads_return_to_real_callers. Qed.
 Print Assumptions C01_threads_return_to_real_callers.
+
+(* the per-thread life cycle (Life.v): alive --thread exit: glibc clears the value of libmcount's key and calls
+   mtd_dtor()--> torn down.  A thread that was alive (key value set, not dead; ANY shadow stack, ANY slot contents)
+   and is torn down is left alone from then on: whatever operations it still performs - instrumented key
+   destructors of the program, further destructor rounds [LTeardown], late signal handlers; entry hooks of every
+   kind, cygprof exits, returns - have exactly the effect of the native run [native_run], the shadow stack stays
+   empty and the key value stays cleared *)
+Theorem C01_torn_down_thread_is_left_alone : forall (t : life) (ops : list lop),
+  l_key t = true -> l_dead t = false ->
+  let t1 := teardown false t in
+  let r := run_lops false t1 ops in
+  (mem (l_st (fst r)), snd r) = native_run (mem (l_st t1)) ops /\
+  rs (l_st (fst r)) = [] /\ l_key (fst r) = false.
+Proof. exact torn_down_thread_is_left_alone. Qed.
+Print Assumptions C01_torn_down_thread_is_left_alone.
+
+(* no return address is hijacked: if the teardown left real addresses in the slots, no slot ever holds a trampoline
+   again, and every return goes straight (no exit hook) to the address the program stored *)
+Theorem C01_torn_down_thread_never_hijacked : forall (t : life) (ops : list lop),
+  l_key t = true -> l_dead t = false ->
+  let t1 := teardown false t in
+  clean (mem (l_st t1)) ->
+  let r := run_lops false t1 ops in
+  clean (mem (l_st (fst r))) /\
+  Forall (fun u => match u with UNone => True | URet n (Real _) => n = 0%nat | _ => False end) (snd r).
+Proof. exact torn_down_thread_never_hijacked. Qed.
+Print Assumptions C01_torn_down_thread_never_hijacked.
+
+(* a whole call tree run by the torn-down thread, with any hooks (-pg, recover, PLT, cygprof) at any depth:
+   every return goes to its real caller *)
+Theorem C01_torn_down_thread_returns_to_real_callers : forall (t : life) (c : call) (d : nat),
+  l_key t = true -> l_dead t = false ->
+  let r := run_lops false (teardown false t) (map lift (full d c)) in
+  targets (snd r) = map Some (native c) /\ rs (l_st (fst r)) = [].
+Proof. exact torn_down_thread_returns_to_real_callers. Qed.
+Print Assumptions C01_torn_down_thread_returns_to_real_callers.
+
+(* mtd_dtor clearing the recursion marker when it is done (a seeded regression: guard/unguard as a balanced pair):
+   the dead thread data is set up again by the first hook of a key destructor, the destructor's return address is
+   hijacked and its return runs into ASSERT(!mtdp->dead) [UDead]; the code as it is returns to 100 *)
+Theorem C01_teardown_marker_cleared_refuted :
+  snd (run_lops true life0 seeded_witness) = [UNone; UNone; URet 1 (Real 50); UNone; UNone; UNone; UDead] /\
+  mem (l_st (fst (run_lops true life0 seeded_witness))) 1%nat = Tramp KM /\
+  snd (run_lops false life0 seeded_witness) = [UNone; UNone; URet 1 (Real 50); UNone; UNone; UNone; URet 0 (Real 100)].
+Proof. exact teardown_marker_cleared_refuted. Qed.
+Print Assumptions C01_teardown_marker_cleared_refuted.
 
 (* --estimate-return: the model of the entry hooks in this mode (mcount_rstack_inject_return + push, no
    hijack, no exit hook) never writes a return-address slot: EVERY call tree - any hooks, any triggers -
